@@ -77,15 +77,15 @@ def cal_info(date: typ.Optional[dt.date] = None) -> version.V2CalendarInfo:
 def _ver_to_cal_info(vinfo: version.V2VersionInfo) -> version.V2CalendarInfo:
     defaults = cal_info(version.TODAY)
     return version.V2CalendarInfo(
-        vinfo.year_y or defaults.year_y,
-        vinfo.year_g or defaults.year_g,
-        vinfo.quarter or defaults.quarter,
-        vinfo.month or defaults.month,
-        vinfo.dom or defaults.dom,
-        vinfo.doy or defaults.doy,
-        vinfo.week_w or defaults.week_w,
-        vinfo.week_u or defaults.week_u,
-        vinfo.week_v or defaults.week_v,
+        defaults.year_y if vinfo.year_y is None else vinfo.year_y,
+        defaults.year_g if vinfo.year_g is None else vinfo.year_g,
+        defaults.quarter if vinfo.quarter is None else vinfo.quarter,
+        defaults.month if vinfo.month is None else vinfo.month,
+        defaults.dom if vinfo.dom is None else vinfo.dom,
+        defaults.doy if vinfo.doy is None else vinfo.doy,
+        defaults.week_w if vinfo.week_w is None else vinfo.week_w,
+        defaults.week_u if vinfo.week_u is None else vinfo.week_u,
+        defaults.week_v if vinfo.week_v is None else vinfo.week_v,
     )
 
 
